@@ -337,10 +337,12 @@ def run(ctx):
         cases.append(c)
     # in chunks, so that a disagreement early does not cost the whole budget
     metas = []
-    CH = 4000
+    CH = 2000
     for a in range(0, len(cases), CH):
-        metas += run_cases(ctx, cases[a:a + CH], fns)
-    for (case, static, trace, req, exp) in metas[:2] + metas[-2:]:
+        m = run_cases(ctx, cases[a:a + CH], fns)
+        metas = (metas + m[:2])[:2] + m[-2:]  # only a few are kept for the evidence samples
+        del m
+    for (case, static, trace, req, exp) in metas:
         ctx.sample({"case": strip(case), "first_day_reply": exp[1] if len(exp) > 1 else None})
     wholerun_oracle(ctx)
     ctx.assumptions.append("crew outcomes per planned request (completed / in progress with minutes / unattended) "
